@@ -106,6 +106,28 @@ def suffix_rule(ctx):
     ctx.check("C06.X", "SeqFormat::get:gz_strip", ok, "optional .gz stripped before the suffix test",
               "SeqFormat::get does not strip exactly the literal \".gz\" (tests %s, strips %s)"
               % ([l for _, l in gz], [show(fv.term(t["args"][0])) for t in trims]), fv.fn["sp"])
+    # ... on every path on which the name ends in ".gz", each suffix test reads the STRIPPED name (a test evaluated
+    # before the strip sees "x.fa.gz" and recognises nothing)
+    from ..core import sym_paths as _sp
+    raw = ("param", param_index(fv, "path"))
+    bad_t = None
+    n_gz = 0
+    for sp in _sp(fv, fv.body):
+        gz_true = any(pol and t[0] == "call" and t[1].endswith("::ends_with") and len(t) == 4 and t[3] == L(".gz")
+                      for t, pol, _ in sp.conds)
+        if not gz_true:
+            continue
+        n_gz += 1
+        for t, pol, _ in sp.conds:
+            for s_ in subterms(t):
+                if s_[0] == "call" and s_[1].endswith("::ends_with") and len(s_) == 4 and s_[3][0] == "lit" and s_[3][1] in SUFFIX_SPEC \
+                        and s_[2] == raw:
+                    bad_t = s_
+    if gz:
+        ctx.check("C06.X", "SeqFormat::get:tests_after_strip", bad_t is None and n_gz >= 1,
+                  "on the %d path(s) with a .gz name every suffix test reads the stripped name" % n_gz,
+                  "on a path where the name ends in \".gz\" the test `%s` is evaluated on the unstripped name: "
+                  "`x.fa.gz` / `x.fq.gz` are not recognised" % (show(bad_t) if bad_t else "?"), fv.fn["sp"])
     fr = ctx.need("C06.X", READER)
     if fr is not None:
         gz2 = [l for _, l in ends_with_lits(fr)]
@@ -233,6 +255,10 @@ def reader_deps(ctx, prop):
     c05.ordinal_rule(d, "C06.N")
     c05.reader_ownership(d, "C06.N")
     end_rule(d)
+    if prop != "C16":
+        from . import c16
+        for path in c16.SNIFFERS:           # which decoder runs is decided by the first byte of the content, not by the name
+            c16.sniff_rule(dep(ctx, prop, "C16"), path)
 
 
 
